@@ -74,6 +74,7 @@ from halmos.contract import (
     OP_BLOCKHASH,
     OP_BYTE,
     OP_CALL,
+    OP_CALLCODE,
     OP_CALLDATACOPY,
     OP_CALLDATALOAD,
     OP_CALLDATASIZE,
@@ -2383,6 +2384,15 @@ class SEVM:
             if op == OP_CALL:
                 # NOTE: we cannot use `to_alias` here because it could be None
                 self.transfer_value(ex, pranked_caller, to, fund, condition)
+            elif op == OP_CALLCODE and not (fund.is_concrete and fund.value == 0):
+                # nothing to transfer (the value would go to the caller itself),
+                # but the call only goes ahead if the balance covers the value
+                balance_cond = simplify(
+                    UGE(ex.balance_of(pranked_caller), fund.as_z3())
+                )
+                if is_false(balance_cond):
+                    raise InfeasiblePath("callcode: balance is not enough")
+                ex.path.append(balance_cond)
 
         def call_known(to: Address) -> None:
             # backup current state
